@@ -64,6 +64,16 @@ class ColMask:
         self.name, self.n = name, n
 
 
+class MaskCount:
+    """Number of selected columns of a mask (xp.sum(f > 0))."""
+
+    def __init__(self, mask):
+        self.mask = mask
+
+    def __index__(self):
+        raise A.OutsideSubset("numeric value of a symbolic column count")
+
+
 class NArr:
     def __init__(self, val, shape, pending=None, grid=False, real=False):
         self.val = val  # NC
@@ -273,6 +283,14 @@ class NArr:
             r, c = key
             if isinstance(r, slice) and r == slice(None) and c is None and self.ndim == 1:
                 return NArr(self.val, (self.shape[0], 1), real=self.isreal)
+            if isinstance(r, slice) and r == slice(None) and isinstance(c, slice) and c.start is None and c.step is None and isinstance(c.stop, MaskCount):
+                # the first n columns (n = number of selected columns of a mask): NOT the masked columns unless the mask is a prefix
+                Csel = C.atom(f"Cfirst[{c.stop.mask.name}]", self.shape[1], c.stop.mask.n)
+                C_dag = Csel.dagger()
+                one = NC({(): A.ONE}, c.stop.mask.n, c.stop.mask.n)
+                if not any(l == (C_dag, Csel) for l, _ in C.rules):
+                    C.rule((C_dag, Csel), one)
+                return NArr(self.val.mul(NC.of(Csel)), (self.shape[0], c.stop.mask.n))
             if isinstance(r, slice) and r == slice(None) and isinstance(c, ColMask):
                 Csel = C.atom(f"C[{c.name}]", self.shape[1], c.n)
                 C_dag = Csel.dagger()
@@ -633,6 +651,14 @@ class Backend:
         if isinstance(x, EigVals):
             return x.pow(Fraction(1, 2))
         raise A.OutsideSubset("xp.sqrt of an array is not modelled by engine N")
+
+    def sum(self, x, *a, **kw):
+        if isinstance(x, ColMask):
+            return MaskCount(x)
+        raise A.OutsideSubset("xp.sum of an array is not modelled by engine N")
+
+    def count_nonzero(self, x, *a, **kw):
+        return self.sum(x)
 
     def any(self, x):
         if hasattr(x, "any") and not isinstance(x, NArr):
